@@ -21,7 +21,7 @@ func vhEncryptedAssertion(cert *tls.Certificate, fullTransport bool, maxLen int)
 	ek := types.EncryptedKey{}
 	dig := ""
 	if fullTransport {
-		ek.X509Data = vString("ek.x509")
+		ek.X509Data = vB64Str("ek.x509")
 		ek.EncryptionMethod.Algorithm = vString("ek.alg")
 		if vFlag("ek.digest.present") {
 			dig = vString("ek.digest")
